@@ -239,6 +239,8 @@ def check_C03(ctx):
     for cfg, F in ctx.configs(["K1", "K2", "K3"]):
         recv.rule_err_map(ctx, cfg, F)
         ctx.rule("ERR-MAP").floor("conversions[%s]" % cfg, 2, cfg)
+        recv.rule_disc_origin(ctx, cfg, F)
+        ctx.rule("DISC-ORIGIN").floor("disconnected_sites[%s]" % cfg, 2, cfg)
     for cfg, F in ctx.configs(["K1", "K2"]):
         recv.rule_zero_read(ctx, cfg, F)
         ctx.rule("ZERO-READ").floor("recvmsg_sites[%s]" % cfg, 1, cfg)
@@ -254,6 +256,8 @@ def check_C03(ctx):
     for cfg, F in ctx.configs(["K3"]):
         recv.rule_inproc_classes(ctx, cfg, F)
         ctx.rule("ERR-CLASS-INPROC").floor("receive_variants[%s]" % cfg, 3, cfg)
+        # the in-process bootstrap registry holds a sender of every pending server: accept() takes its entry out, or the accepted channel never disconnects
+        oss.rule_oss_own(ctx, cfg, F, "inprocess")
     for cfg, F in ctx.configs(["K1", "K3"]):
         tls.rule_tls_restore(ctx, cfg, F)
     ctx.assume("descriptors in SCM_RIGHTS transit keep the peer open; the kernel delivers EOF only when every copy of the sending end is closed")
@@ -656,6 +660,8 @@ LEVEL["C20"] = ("Decides the protocol-shape clauses of C20 only (feature `async`
 def check_C20(ctx):
     for cfg, F in ctx.configs(["K4", "K5"] + (["K6", "K8"] if ctx.tier == "thorough" else [])):
         asyn.rule_as_order(ctx, cfg, F)
+        # the routing thread keys its forwarding senders by receiver-set ids: two live members never share one
+        rset.rule_set_id(ctx, cfg, F, "unix" if cfg in ("K4", "K6") else "inprocess")
         # items are decoded lazily on the consumer's thread: a failed decode releases the message's attachments (a parked sender would keep another stream from ending)
         tls.rule_tls_restore(ctx, cfg, F)
         asyn.rule_as_poll(ctx, cfg, F)
